@@ -43,12 +43,12 @@ type Op struct {
 type Weights struct {
 	Next, Extend, Lookup, MarkUsed, Lock, Unlock, UnlockWrong, ChangePriv, ChangePub,
 	NewAccount, Rename, ImportPriv, ImportPub, ImportScript, ImportWScript, ImportTScript, ImportXPub,
-	Restart, DerivePath, Invalidate, SyncedTo, NewScope, Convert, SyncedToGap, Neuter int
+	Restart, DerivePath, Invalidate, SyncedTo, NewScope, Convert, SyncedToGap, Neuter, Reimport int
 }
 
 var DefaultWeights = Weights{Next: 18, Extend: 6, Lookup: 8, MarkUsed: 5, Lock: 5, Unlock: 7, UnlockWrong: 3, ChangePriv: 3, ChangePub: 2,
 	NewAccount: 4, Rename: 3, ImportPriv: 3, ImportPub: 2, ImportScript: 2, ImportWScript: 2, ImportTScript: 1, ImportXPub: 3,
-	Restart: 4, DerivePath: 5, Invalidate: 3, SyncedTo: 4, NewScope: 1}
+	Restart: 4, DerivePath: 5, Invalidate: 3, SyncedTo: 4, NewScope: 1, Reimport: 2}
 
 func (w *World) pickScope() waddrmgr.KeyScope { return w.Scopes[w.R.Intn(len(w.Scopes))] }
 func (w *World) pickAcct(s waddrmgr.KeyScope) *Acct {
@@ -73,7 +73,7 @@ func (w *World) Gen(wt Weights) *Op {
 		{wt.NewAccount, w.opNewAccount}, {wt.Rename, w.opRename}, {wt.ImportPriv, w.opImportPriv}, {wt.ImportPub, w.opImportPub},
 		{wt.ImportScript, func() *Op { return w.opImportScript("script") }}, {wt.ImportWScript, func() *Op { return w.opImportScript("wscript") }},
 		{wt.ImportTScript, func() *Op { return w.opImportScript("tscript") }}, {wt.ImportXPub, w.opImportXPub},
-		{wt.Restart, w.opRestart}, {wt.DerivePath, w.opDerivePath}, {wt.Invalidate, w.opInvalidate}, {wt.SyncedTo, w.opSyncedTo}, {wt.NewScope, w.opNewScope}, {wt.Convert, w.opConvert}, {wt.SyncedToGap, w.opSyncedToGap}, {wt.Neuter, w.opNeuter},
+		{wt.Restart, w.opRestart}, {wt.DerivePath, w.opDerivePath}, {wt.Invalidate, w.opInvalidate}, {wt.SyncedTo, w.opSyncedTo}, {wt.NewScope, w.opNewScope}, {wt.Convert, w.opConvert}, {wt.SyncedToGap, w.opSyncedToGap}, {wt.Neuter, w.opNeuter}, {wt.Reimport, w.opReimport},
 	}
 	tot := 0
 	for _, e := range es {
@@ -416,6 +416,50 @@ func (w *World) opImportPriv() *Op {
 		return err
 	}
 	op.Post = func() { w.Register(e) }
+	return op
+}
+
+// opReimport imports the key of an address the manager already has (issued from
+// the chain or imported earlier) into the same scope: it must be refused as a
+// duplicate, whether the address is still cached or only on disk (used
+// addresses are evicted; a restart empties the cache), and the address must
+// stay what it was (the sweeps look every address up again).
+func (w *World) opReimport() *Op {
+	var cands []*Addr
+	for _, e := range w.SortedAddrs() {
+		if len(e.Pub) != 33 || (e.Kind != "chain" && e.Kind != "imppriv" && e.Kind != "imppub") {
+			continue
+		}
+		if _, ok := w.Schemas[e.Scope]; !ok || e.Type != w.importedType(e.Scope) {
+			continue
+		}
+		cands = append(cands, e)
+	}
+	if len(cands) == 0 {
+		return nil
+	}
+	e := cands[w.R.Intn(len(cands))]
+	pub, err := btcec.ParsePubKey(e.Pub)
+	if err != nil {
+		return nil
+	}
+	byPriv := e.Priv != nil && w.Unlocked() && w.R.Intn(2) == 0
+	op := &Op{Kind: "reimport", Name: fmt.Sprintf("import the key of the known %s address %s again (private=%v, used=%v)", e.Kind, e.Str, byPriv, e.Used), WantErr: "ErrDuplicateAddress"}
+	s := e.Scope
+	op.Run = func(ns walletdb.ReadWriteBucket) error {
+		sm := w.Scoped(s)
+		if byPriv {
+			priv, _ := btcec.PrivKeyFromBytes(e.Priv)
+			wif, err := btcutil.NewWIF(priv, w.Params, true)
+			if err != nil {
+				return fmt.Errorf("oracle: %w", err)
+			}
+			_, err = sm.ImportPrivateKey(ns, wif, bs0(w))
+			return err
+		}
+		_, err := sm.ImportPublicKey(ns, pub, bs0(w))
+		return err
+	}
 	return op
 }
 
